@@ -58,6 +58,7 @@ fn main() {
         "C07" => c07::run_check(replay),
         "C13" => c13::run_check(replay),
         "C14" => c14::run_check(replay),
+        "C15" => c15::run_check(replay),
         "C16" => c16::run(replay),
         "C17" => c17::run(replay),
         "C18" => c18::run_check(replay),
